@@ -286,14 +286,33 @@ def _expression_template(h, funcs):
     if not stmts or stmts[-1]['k'] != 'return' or stmts[-1]['expr'] is None:
         return None
     inits = {}
+    guards = []          # `if (c) return e;` steps before the final return: the helper is c1 ? e1 : (c2 ? e2 : ... final)
     for st in stmts[:-1]:
-        if st['k'] != 'decl':
-            return None
-        for d in st['decls']:
-            if d['init'] is None or d.get('static'):
-                return None
-            inits[d['id']] = d['init']
-    exprs = list(inits.values()) + [stmts[-1]['expr']]
+        if st['k'] == 'decl' and not guards:
+            for d in st['decls']:
+                if d['init'] is None or d.get('static'):
+                    return None
+                inits[d['id']] = d['init']
+            continue
+        if st['k'] == 'if' and st['els'] is None and st['then'] is not None:
+            t = st['then']
+            body = t['body'] if t['k'] == 'block' else [t]
+            if len(body) == 1 and body[0]['k'] == 'return' and body[0]['expr'] is not None:
+                guards.append((st['cond'], body[0]['expr']))
+                continue
+        return None
+    final = stmts[-1]['expr']
+    rtype0 = (h.get('type') or '').split('(')[0].strip()
+    for c, e in reversed(guards):
+        ce = ir.top_nocast(e)
+        lit = ce[1] if ce[0] == 'int' else None
+        if rtype0 in ('bool', '_Bool') and lit in (0, 1):
+            # bool-valued: c ? true : X  ==  c || X ;  c ? false : X  ==  !c && X   (keeps the conditions splittable in the flow graph)
+            final = ('bin', '||', c, final) if lit == 1 else ('bin', '&&', ('un', '!', c), final)
+        else:
+            final = ('cond', c, e, final)
+    stmts = list(stmts[:-1]) + [dict(stmts[-1], expr=final)]
+    exprs = list(inits.values()) + [final]
     for e in exprs:
         for x in ir.walk(e):
             if x[0] == 'assign' or (x[0] == 'un' and x[1] in ('pre++', 'pre--', 'post++', 'post--')):
@@ -411,7 +430,7 @@ def splice_into(fn, helpers):
     return tmp[fn['name']]
 
 
-def splice_new_helpers(functions_of_unit, force=None):
+def splice_new_helpers(functions_of_unit, force=None, globals_of_unit=None):
     """functions_of_unit: name -> fn dict (one unit).  Returns the number of call sites spliced; fn dicts are replaced by copies."""
     known = known_names()
     if force is not None:
@@ -420,9 +439,8 @@ def splice_new_helpers(functions_of_unit, force=None):
         new = {n: f for n, f in functions_of_unit.items() if n not in known and f.get('body') is not None}
     if not new:
         return 0
-    nsub = substitute_expression_helpers(functions_of_unit, list(new)) if force is None else 0
-    if nsub:
-        new = {n: functions_of_unit[n] for n in new}
+    all_new = list(new)
+    nsub = 0
     # helpers that call themselves (directly) are left alone; so are pure accessors (`return expr;`), which the normaliser
     # already expands wherever an expression mentions them
     for n in list(new):
@@ -485,6 +503,38 @@ def splice_new_helpers(functions_of_unit, force=None):
             s2 = dict(s, expr=repl(top))
         return [d, s2]
 
+    def lower_cond(s):
+        k = s['k']
+        line = s.get('line')
+        if k == 'decl':
+            if len(s['decls']) != 1 or s['decls'][0]['init'] is None:
+                return None
+            d = s['decls'][0]
+            top, lhs = ir.top_nocast(d['init']), ('local', d['name'], d['id'])
+        elif k == 'return':
+            if s['expr'] is None:
+                return None
+            top, lhs = ir.top_nocast(s['expr']), None
+        else:
+            t = ir.top_nocast(s['expr'])
+            if t[0] != 'assign' or t[1] != '=':
+                return None
+            top, lhs = ir.top_nocast(t[3]), t[2]
+        if top[0] != 'cond':
+            return None
+        if not any(x[0] == 'call' and ir.callee_name(x) in new for arm in (top[2], top[3]) for x in ir.walk(arm)):
+            return None
+
+        def arm(e):
+            if lhs is None:
+                return dict(k='return', line=line, expr=e)
+            return dict(k='expr', line=line, expr=('assign', '=', lhs, e))
+        out = []
+        if k == 'decl':
+            out.append(dict(s, decls=[dict(s['decls'][0], init=None)]))
+        out.append(dict(k='if', line=line, cond=top[1], then=dict(k='block', line=line, body=[arm(top[2])]), els=dict(k='block', line=line, body=[arm(top[3])])))
+        return out
+
     def rewrite(s, depth):
         if s is None:
             return [s]
@@ -499,6 +549,11 @@ def splice_new_helpers(functions_of_unit, force=None):
             return [dict(s, body=as_block(rewrite(s['body'], depth), line) if s.get('body') is not None else None)]
         if k == 'for':
             return [dict(s, body=as_block(rewrite(s['body'], depth), line) if s['body'] is not None else None)]
+        # `x = c ? A : B` / `T x = c ? A : B` / `return c ? A : B` with a helper call in one arm: lowered to if/else first
+        if k in ('expr', 'return', 'decl') and depth <= 3:
+            low = lower_cond(s)
+            if low is not None:
+                return rewrite_list(low, depth)
         # a helper call nested as an argument of other calls (`return f(m, H(x))`) is first hoisted into a temporary; this keeps
         # the evaluation order when every other call of the statement encloses it (arguments are evaluated before the call)
         if k in ('expr', 'return', 'decl') and depth <= 3:
@@ -557,4 +612,30 @@ def splice_new_helpers(functions_of_unit, force=None):
             g['body'] = nb
             g['spliced'] = True
             functions_of_unit[n] = g
+    # call sites the statement-level splice could not take (a call inside a condition, a helper with a return inside a loop called from
+    # an expression, ...): helpers that are expressions in disguise are substituted in place
+    if force is None:
+        nsub = substitute_expression_helpers(functions_of_unit, all_new)
+    # a new static helper that nothing refers to any more (every call was spliced or substituted) is dead code: rules that look at every
+    # function of a unit must not see its body a second time
+    if force is None and (count[0] or nsub):
+        for n in all_new:
+            f = functions_of_unit.get(n)
+            if f is None or not f.get('static'):
+                continue
+            used = False
+            for m, g_ in functions_of_unit.items():
+                if m == n or g_.get('body') is None:
+                    continue
+                for e in _all_exprs(g_['body']):
+                    if any(x[0] == 'func' and x[1] == n for x in ir.walk(e)):
+                        used = True
+                        break
+                if used:
+                    break
+            for g_ in (globals_of_unit or {}).values():          # a function stored in a table (an instance of a type class) is alive
+                if g_.get('init') is not None and any(isinstance(x, tuple) and x and x[0] == 'func' and x[1] == n for x in ir.walk(g_['init'])):
+                    used = True
+            if not used:
+                del functions_of_unit[n]
     return count[0] + nsub
